@@ -61,7 +61,7 @@ def run():
         if why:
             c.findings.append(Finding("bounded", ("reject:" if kind == "crash" else "reject_cli:") + kind, "%s [%s]" % (why, os.path.relpath(path, corpus.REPO)), {"file": path, "scenario_seed": seed, "observed": why}, why))
     if c.tier == "thorough":
-        run_selftest(c, ["mutants_parts.py"], lambda eng: PARTS + ['vsg.vhdlFile.utils.detect_subelement_until'])
+        run_selftest(c, ["mutants_parts.py"], lambda eng: PARTS + ['vsg.vhdlFile.utils.detect_subelement_until', 'vsg.vhdlFile.utils.assign_tokens_until_matching_closing_paren', 'vsg.vhdlFile.classify.physical_type_definition.classify'])
     # valid configuration shapes of the per-file sections through the real CLI
     from bounded import cfgshapes
 
